@@ -175,15 +175,26 @@ def show(case):
 def run(ctx):
     deep_stack()
     el = elem_texts(small=True)
-    ep = os.path.join(vlib.mkdirs(os.path.join(ctx.work, 'traces')), 'cc-elems.ndjson')
-    with open(ep, 'w') as f:
-        for e in el:
-            f.write(json.dumps({'e': list(e.encode('latin-1'))}) + '\n')
-    cfg = 'MC_CacheControl_thorough.cfg' if ctx.thorough else 'MC_CacheControl.cfg'
-    mc = vlib.tlc_must_pass(ctx, os.path.join(SPEC, 'MC_CacheControl.tla'), os.path.join(SPEC, cfg), env={'ELEMS': ep}, timeout=2400, label='mc-cc')
-    ctx.cov['spec_law_states'] = mc.distinct
+
+    def laws(texts, maxdirs, label):
+        ep = os.path.join(vlib.mkdirs(os.path.join(ctx.work, 'traces')), 'cc-elems-%s.ndjson' % label)
+        with open(ep, 'w') as f:
+            for e in texts:
+                f.write(json.dumps({'e': list(e.encode('latin-1'))}) + '\n')
+        cfg = os.path.join(ctx.work, 'MC_CacheControl_%s.cfg' % label)
+        with open(cfg, 'w') as f:
+            f.write('CONSTANT MaxDirs = %d\nINIT Init\nNEXT Next\nINVARIANT Laws\nCHECK_DEADLOCK FALSE\n' % maxdirs)
+        mc = vlib.tlc_must_pass(ctx, os.path.join(SPEC, 'MC_CacheControl.tla'), cfg, env={'ELEMS': ep}, timeout=3000, label='mc-cc-' + label)
+        ctx.add('spec_law_states', mc.distinct)
+        ctx.log('reference laws hold on %d directive lists of <= %d over %d directive texts' % (mc.distinct, maxdirs, len(texts)))
+    laws(el, 2, 'pairs')
     ctx.cov['spec_law_directive_texts'] = len(el)
-    ctx.log('reference laws hold on %d directive lists over %d directive texts' % (mc.distinct, len(el)))
+    if ctx.thorough:
+        # triples over one text per (directive kind x argument shape)
+        tiny = ['public', 'PUBLIC', 'no-store', 'max-age=5', 'max-age=0', 'max-age=2147483648', 'max-age=10abc', 'max-age', 's-maxage=5', 'max-stale',
+                'max-stale=5', 'max-stale=-1', 'min-fresh=2147483647', 'stale-if-error=', 'private', 'private="x"', 'private="a\\"b"', 'private=tok',
+                'no-cache', 'no-cache="a,b"', 'no-cache=""', 'no-cache="open', 'foo', 'foo="a,b"', 'immutable']
+        laws(tiny, 3, 'triples')
     exe = ucheck.build_like_test(ctx, 'cc', 'testHttpReply', ['u_cc.cc', 'uhelp.cc'], add=['src/CommCalls.cc', 'src/SquidConfig.cc'])
     cases = gen(ctx)
     lines = ['C %s' % hx(v) for v in cases]
@@ -192,7 +203,7 @@ def run(ctx):
     outs = [json.loads(l) for l in r.stdout.splitlines() if l.startswith('{')]
     if len(outs) != len(lines):
         raise vlib.MachineryError('driver answered %d of %d (rc=%s) %s' % (len(outs), len(lines), r.returncode, r.stderr[-800:]))
-    prej, irej = conformance(ctx, os.path.join(SPEC, 'Conf_CacheControl.tla'), os.path.join(SPEC, 'Conf_CacheControl.cfg'), outs, 'cc')
+    prej, irej = conformance(ctx, os.path.join(SPEC, 'Conf_CacheControl.tla'), os.path.join(SPEC, 'Conf_CacheControl.cfg'), outs, 'cc', timeout=3000)
     ctx.log('TLC evaluated %d cases: P-rejected %d, I-rejected %d' % (len(outs), len(prej), len(irej)))
     known = load_known('C29')
     iset, hist = set(irej), {}
